@@ -520,13 +520,12 @@ func (a *Attacker) Attack(tr Targeter, p Pacer, du time.Duration, name string) <
 // was a noop because it has been previously signalled to stop (`false` for any
 // subsequent calls).
 func (a *Attacker) Stop() bool {
-	select {
-	case <-a.stopch:
-		return false
-	default:
-		a.stopOnce.Do(func() { close(a.stopch) })
-		return true
-	}
+	stopped := false
+	a.stopOnce.Do(func() {
+		close(a.stopch)
+		stopped = true
+	})
+	return stopped
 }
 
 func (a *Attacker) attack(tr Targeter, atk *attack, workers *sync.WaitGroup, ticks <-chan struct{}, results chan<- *Result) {
